@@ -1,5 +1,5 @@
 (* C14 — failed transfers in the distributor lose nothing and are made up later. *)
-From C4E Require Import Base Minter Distributor DistrCoins DistrProofs Books.
+From C4E Require Import Base Minter Distributor DistrCoins DistrProofs Books Credited.
 From C4EProps Require C03.
 Open Scope Z_scope.
 
@@ -16,6 +16,18 @@ Proof. exact history_keeps_books. Qed.
 Print Assumptions C14_books_hold_whatever_fails.
 
 (* a failed payout or burn: the state keeps its full remains (so it is retried in the next block) *)
+(* what a destination has been credited — its balance (for the burn state: the burned total) in 10^-18
+   units plus its recorded remains — is the same after a payout attempt as before it, whether the bank
+   call succeeded or failed: a failure only postpones the payment, it never changes what is owed *)
+Theorem C14_payout_attempt_keeps_credited_amount :
+  forall s b,
+  dc_wf (st_rem s) -> (forall d, 0 <= dc_amt d (st_rem s)) -> has_acc s -> state_plain s ->
+  bal_wf (bk_bal b) -> bal_nonneg (bk_bal b) -> dc_wf (bk_burned b) ->
+  (forall d, dc_amt d (st_rem s) <= mainbal b d * P) ->
+  forall s' b', payout s b = Ok (s', b') -> forall d, credited s' b' d = credited s b d.
+Proof. exact payout_keeps_credited. Qed.
+Print Assumptions C14_payout_attempt_keeps_credited_amount.
+
 Theorem C14_failed_payout_keeps_full_remains :
   forall s b a s' b', st_acc s = Some a -> fst (next_fault b) = true -> payout s b = Ok (s', b') -> s' = s.
 Proof. exact payout_failure_keeps_remains. Qed.
